@@ -55,7 +55,7 @@ def check(ctx):
 def cond_is_nonnull(f, c, field):
     """branch condition `this.<field> != nullptr` -> edge on which it is non-null."""
     try:
-        fm = F.boolexpr(f, c, {}, False)
+        fm = F.boolexpr(f, c, {}, True)
     except F.Unsupported:
         return None
     neg = False
